@@ -133,6 +133,11 @@ def _work(cases):
 
 def run(prop_id, tier, seed, replay=None):
     rep = vlib.Report(prop_id, tier, seed)
+    replay_cases = None
+    if replay:
+        import json
+        with open(replay) as f:
+            replay_cases = [json.load(f)["detail"]["case"]]
     wd = vlib.workdir(prop_id)
     rep.rule = ("terms enumerated by TLC from spec/Selections.tla (BFS to MaxDepth, plus -simulate walks with "
                 "depth-1 operands); each replayed on Selection built with the public constructors and with the raw "
@@ -140,9 +145,7 @@ def run(prop_id, tier, seed, replay=None):
                 "every split, compared with Den(term) computed by TLC. non-trivial = distinct term whose Den is "
                 "neither empty nor everything")
     if replay:
-        import json
-        with open(replay) as f:
-            cases = [json.load(f)["detail"]["case"]]
+        cases = replay_cases
     else:
         maxdepth = 2 if tier == "quick" else 3
         cfgA = os.path.join(wd, "MC.cfg")
